@@ -796,20 +796,24 @@ stale, rejected by the validation) or runs the whole pipeline — both loops of 
 update, `processFastRetransmission` WITHOUT its error return, the partial-reliability step, the RACK marks. -/
 theorem sack_cases (s : St) (cum arwnd : BitVec 32) (gaps : List (BitVec 16 × BitVec 16)) (marks : List (BitVec 32))
     (hs : Seq s) (hsm : s.inflight.length < 2^31) :
-    ((sack s cum arwnd gaps marks).2 ≠ .ok ∧ (sack s cum arwnd gaps marks).2 ≠ .failedLate ∧ (sack s cum arwnd gaps marks).1 = s) ∨
+    ((sack s cum arwnd gaps marks).2 ≠ .ok ∧ (sack s cum arwnd gaps marks).2 ≠ .failedLate ∧ (sack s cum arwnd gaps marks).1 = s ∧
+      (s.established = false ∨ sna32GT s.cumAck cum = true ∨ validate s cum gaps = false)) ∨
     ((sack s cum arwnd gaps marks).2 = .ok ∧ s.established = true ∧ sna32GT s.cumAck cum = false ∧ validate s cum gaps = true ∧
       ∃ r, ackPhase s cum gaps = some r ∧ Seq r.1 ∧ r.1.cumAck = cum ∧
         (sack s cum arwnd gaps marks).1 =
           applyMarks (prStep (fastRetransCheck (setPeerWindow r.1 arwnd) cum gaps r.2.1 r.2.2).1) marks) := by
   unfold sack
   split
-  · exact Or.inl ⟨by simp, by simp, rfl⟩
+  · rename_i hest
+    exact Or.inl ⟨by simp, by simp, rfl, Or.inl (by simpa using hest)⟩
   · rename_i hest
     split
-    · exact Or.inl ⟨by simp, by simp, rfl⟩
+    · rename_i hst
+      exact Or.inl ⟨by simp, by simp, rfl, Or.inr (Or.inl hst)⟩
     · rename_i hst
       split
-      · exact Or.inl ⟨by simp, by simp, rfl⟩
+      · rename_i hv
+        exact Or.inl ⟨by simp, by simp, rfl, Or.inr (Or.inr (by simpa using hv))⟩
       · rename_i hv
         have hst' : sna32GT s.cumAck cum = false := by simpa using hst
         have hv' : validate s cum gaps = true := by simpa using hv
@@ -973,7 +977,7 @@ theorem sack_ok_form (s : St) (cum arwnd : BitVec 32) (gaps : List (BitVec 16 ×
     ∃ y : St, AdvInv y ∧ Seq y ∧ y.inflight.length ≤ s.inflight.length ∧ y.cfg = s.cfg ∧
       y.abandonedMsgs = s.abandonedMsgs ∧ y.allInflightMsgs = s.allInflightMsgs ∧ y.cumAck = cum ∧
       (sack s cum arwnd gaps marks).1 = applyMarks (advancePeerAck y) marks := by
-  rcases sack_cases s cum arwnd gaps marks hs hsm with ⟨hne, _, _⟩ | ⟨_, _, _, _, r, hr, hrs, hcum, he⟩
+  rcases sack_cases s cum arwnd gaps marks hs hsm with ⟨hne, _, _, _⟩ | ⟨_, _, _, _, r, hr, hrs, hcum, he⟩
   · exact absurd hok hne
   · obtain ⟨p1, p2, p3, k, hk, p4⟩ := ackPhase_shape hr
     have hlen : r.1.inflight.length = s.inflight.length - k := by simpa using length_of_ident p4
@@ -1018,7 +1022,7 @@ theorem sack_adv (s : St) (cum arwnd : BitVec 32) (gaps : List (BitVec 16 × Bit
     rw [he]
     have a2 := advancePeerAck_inv y y2.1 (by omega) y1
     exact a2.transfer rfl rfl (MsgPrefix.of_ident (applyMarks_ident _ marks)) (AbLe.refl _)
-  · rcases sack_cases s cum arwnd gaps marks hs hsm with ⟨_, _, he⟩ | ⟨h1, _⟩
+  · rcases sack_cases s cum arwnd gaps marks hs hsm with ⟨_, _, he, _⟩ | ⟨h1, _⟩
     · rw [he]; exact h
     · exact absurd h1 hok
 
